@@ -1,8 +1,10 @@
 SPECIFICATION Spec
 CONSTANTS
-  MaxD = 5
-  PairD = 5
+  MaxD = 6
+  PairD = 6
   PairLeaves <- ThoroughPairLeaves
+  FeeVars = {"eq", "more", "less", "denom", "none"}
+  GasVars = {"eq", "more", "less"}
   TripleElemSet <- ThoroughTripleElems
 INVARIANTS
   Inv_WellFormed
